@@ -129,6 +129,10 @@ pub struct World {
     pub clients: Vec<Client>,
     pub configs: Vec<ConfigDesc>,
     pub nsubnets: usize,
+    /// where a file-backed lease store comes from: 0 = created by the tree under test, 1 = an (empty) database in the
+    /// original schema without a schema_version table, 2 = the original schema with schema_version pool = 0 -- what a
+    /// site that has been running since an older release has
+    pub store_origin: u8,
 }
 
 pub fn gen_world(r: &mut Rng) -> World {
@@ -233,10 +237,16 @@ pub fn gen_world(r: &mut Rng) -> World {
         }
         configs.push(ConfigDesc { pools });
     }
+    let store_origin = match r.below(6) {
+        4 => 1,
+        5 => 2,
+        _ => 0,
+    };
     World {
         clients,
         configs,
         nsubnets,
+        store_origin,
     }
 }
 
@@ -273,6 +283,9 @@ pub enum Op {
     Advance(i64),
     Restart,
     Switch(usize),
+    /// Another process (a backup, an administrator's sqlite3 shell) takes (true) / gives back (false) the write lock of the
+    /// lease database file.  While it is held the server cannot record a lease -- and so must not hand one out.
+    ForeignLock(bool),
 }
 
 fn ipj(x: u32) -> String {
@@ -284,6 +297,7 @@ impl Op {
         match self {
             Op::Advance(d) => json!({"op": "advance", "secs": d}),
             Op::Restart => json!({"op": "restart"}),
+            Op::ForeignLock(on) => json!({"op": "foreign-lock", "on": on}),
             Op::Switch(k) => json!({"op": "switch-config", "config": k}),
             Op::Msg(m) => json!({
                 "op": "msg", "client": m.client, "subnet": m.subnet, "type": m.mtype,
@@ -304,6 +318,7 @@ impl Op {
         match v["op"].as_str()? {
             "advance" => Some(Op::Advance(v["secs"].as_i64()?)),
             "restart" => Some(Op::Restart),
+            "foreign-lock" => Some(Op::ForeignLock(v["on"].as_bool()?)),
             "switch-config" => Some(Op::Switch(v["config"].as_u64()? as usize)),
             "msg" => Some(Op::Msg(MsgOp {
                 client: v["client"].as_u64()? as usize,
@@ -342,6 +357,7 @@ impl Op {
 pub fn world_to_json(w: &World) -> Value {
     json!({
         "nsubnets": w.nsubnets,
+        "store_origin": w.store_origin,
         "clients": w.clients.iter().map(|c| json!({"chaddr": hex(&c.chaddr),
             "client_id": c.client_id.as_ref().map(|x| hex(x))})).collect::<Vec<_>>(),
         "configs": w.configs.iter().map(|c| json!(c.pools.iter().map(|p| json!({
@@ -398,6 +414,7 @@ pub fn world_from_json(v: &Value) -> Option<World> {
         clients,
         configs,
         nsubnets: v["nsubnets"].as_u64()? as usize,
+        store_origin: v["store_origin"].as_u64().unwrap_or(0) as u8,
     })
 }
 
@@ -542,6 +559,17 @@ impl Server {
         let pool = match &path {
             Some(p) => {
                 let _ = std::fs::remove_file(p);
+                if w.store_origin != 0 {
+                    // the schema of the first releases, written in plain SQL; the tree under test upgrades it when it opens it
+                    let conn = rusqlite::Connection::open(p).map_err(|e| e.to_string())?;
+                    conn.execute("CREATE TABLE leases (address TEXT NOT NULL, chaddr BLOB, clientid BLOB, start INTEGER NOT NULL, expiry INTEGER NOT NULL, PRIMARY KEY (address))", [])
+                        .map_err(|e| e.to_string())?;
+                    if w.store_origin == 2 {
+                        conn.execute("CREATE TABLE schema_version (key TEXT NOT NULL, version INTEGER NOT NULL, PRIMARY KEY (key))", []).map_err(|e| e.to_string())?;
+                        conn.execute("INSERT INTO schema_version (key, version) VALUES ('pool', 0)", []).map_err(|e| e.to_string())?;
+                    }
+                    conn.close().map_err(|e| e.1.to_string())?;
+                }
                 pool::Pool::verif_open(p)
             }
             None => pool::Pool::new_in_memory(),
@@ -685,6 +713,8 @@ pub struct HistoryRun<'a> {
     last_addr: BTreeMap<usize, u32>,
     abandoned_twin: bool,
     pub violated: bool,
+    /// connections of the "other process" holding the write lock of the store (and of the twin's)
+    foreign: Vec<rusqlite::Connection>,
 }
 
 impl<'a> HistoryRun<'a> {
@@ -696,8 +726,9 @@ impl<'a> HistoryRun<'a> {
         tag: &str,
         coords: Value,
     ) -> Result<Self, String> {
-        // C01 quantifies over restarts too: file-backed store, restarts at a lower rate than C18's
-        let file_backed = prop == Prop::C18 || prop == Prop::C01;
+        // C01 quantifies over restarts too: file-backed store, restarts at a lower rate than C18's; C10's record must be
+        // on disk before the reply as well (another process can hold the file's lock: Op::ForeignLock)
+        let file_backed = prop == Prop::C18 || prop == Prop::C01 || prop == Prop::C10;
         let path = if file_backed {
             Some(scratch.join(format!("{}-a.sqlite", tag)))
         } else {
@@ -726,6 +757,7 @@ impl<'a> HistoryRun<'a> {
             last_addr: BTreeMap::new(),
             abandoned_twin: false,
             violated: false,
+            foreign: Vec::new(),
         })
     }
 
@@ -747,6 +779,7 @@ impl<'a> HistoryRun<'a> {
     }
 
     pub fn cleanup(&mut self) {
+        self.foreign.clear();
         for s in [Some(&self.srv), self.twin.as_ref()].into_iter().flatten() {
             if let Some(p) = &s.path {
                 let _ = std::fs::remove_file(p);
@@ -999,7 +1032,31 @@ impl<'a> HistoryRun<'a> {
                 }
                 Ok(())
             }
-            Op::Msg(m) => self.step_msg(&m),
+            Op::ForeignLock(true) => {
+                if self.foreign.is_empty() {
+                    for s in [Some(&self.srv), self.twin.as_ref()].into_iter().flatten() {
+                        if let Some(p) = &s.path {
+                            let c = rusqlite::Connection::open(p).map_err(|e| e.to_string())?;
+                            c.execute_batch("BEGIN IMMEDIATE").map_err(|e| format!("foreign BEGIN IMMEDIATE: {}", e))?;
+                            self.foreign.push(c);
+                        }
+                    }
+                    self.leg.count("op_foreign_lock_taken", 1);
+                }
+                Ok(())
+            }
+            Op::ForeignLock(false) => {
+                for c in self.foreign.drain(..) {
+                    let _ = c.execute_batch("ROLLBACK");
+                }
+                Ok(())
+            }
+            Op::Msg(m) => {
+                if !self.foreign.is_empty() {
+                    self.leg.count("messages_while_another_process_held_the_database", 1);
+                }
+                self.step_msg(&m)
+            }
         }
     }
 
@@ -1529,7 +1586,29 @@ pub fn run(prop: Prop, seed: u64, params: &HistParams, scratch: &std::path::Path
                             continue;
                         }
                     };
-                    for _ in 0..nsteps {
+                    // the first history of every shard (C10 and C18 only: each message during the episode waits for the
+                    // store's 5 s busy timeout) has one episode in which another process holds the database's write lock
+                    let lock_at = if h == 0 && matches!(prop, Prop::C10 | Prop::C18) { Some(r.range(3, min_steps.max(4))) } else { None };
+                    for k in 0..nsteps {
+                        if lock_at == Some(k) {
+                            let mut ok = run.step(Op::ForeignLock(true)).is_ok();
+                            for _ in 0..2 {
+                                // messages only (a restart or a clock shift would itself need the lock)
+                                let mut op = run.gen_op(&mut r);
+                                let mut tries = 0;
+                                while !matches!(op, Op::Msg(_)) && tries < 20 {
+                                    op = run.gen_op(&mut r);
+                                    tries += 1;
+                                }
+                                if ok && matches!(op, Op::Msg(_)) {
+                                    ok = run.step(op).is_ok() && !run.violated;
+                                }
+                            }
+                            let _ = run.step(Op::ForeignLock(false));
+                            if run.violated {
+                                break;
+                            }
+                        }
                         let op = run.gen_op(&mut r);
                         if let Err(e) = run.step(op) {
                             if !run.violated {
@@ -1554,6 +1633,9 @@ pub fn run(prop: Prop, seed: u64, params: &HistParams, scratch: &std::path::Path
                     leg.sample(s);
                 }
                 leg.count("histories", 1);
+                if w.store_origin != 0 && (prop == Prop::C18 || prop == Prop::C01) {
+                    leg.count("histories_on_a_store_created_by_an_older_release", 1);
+                }
             }
             leg
         }));
